@@ -1,6 +1,6 @@
 /-
 Executable model of sktime/utils/data_processing.py (panel container conversions),
-sktime/utils/validation/panel.py (check_X) — property C15.  Import-free.
+sktime/utils/validation/panel.py (check_X) — property C15.  Imports only the shared structural sort (Model/Sort.lean).
 
 Representations (pandas / numpy objects by their positional meaning on nested lists):
 
@@ -23,6 +23,7 @@ The functions follow the code's algorithm: loops become maps/folds, `df[name] = 
 `unstack` of a full product index is reshape + per-instance transpose, `melt` stacks the value
 columns in column order, `pivot` sorts the distinct keys / variables and looks every cell up.
 -/
+import SkVerif.Model.Sort
 namespace SkVerif.Panel
 
 inductive Err where
@@ -260,6 +261,13 @@ def fromMIToNested {ν α} [DecidableEq ν] (M : MI ν α) (instArg : Option Str
 
 /-! ### nested <-> long -/
 
+/-- `df.melt(id_vars=<index levels>, var_name=…)`: the value columns stacked one after the other in
+column order, each paired with the row keys.  Entries are `((key, variable), value)`. -/
+def melt {κ ν α : Type} (names : List ν) (rows : List (κ × List α)) : List ((κ × ν) × α) :=
+  let keys := rows.map (·.1)
+  let colsT := transposeW names.length (rows.map (·.2))      -- the frame column by column
+  ((names.zip colsT).map (fun p => (keys.zip p.2).map (fun q => ((q.1, p.1), q.2)))).flatten
+
 /-- `from_nested_to_long(X, instance_column_name, time_column_name, dimension_column_name)`.
 `reserved` are the names that collide with `reset_index` / `melt` (`"index"`, `"time_index"`,
 `"value"`), given as a predicate on names. -/
@@ -267,41 +275,42 @@ def fromNestedToLong {ν α} (reserved : ν → Bool) (N : Nested ν α)
     (instArg timeArg dimArg : Option String) : Except Err (Long ν α) := do
   let M ← fromNestedToMI N (some "index") (some "time_index")
   if M.names.any reserved then throw Err.value
-  let keys := M.rows.map (·.1)
-  let colsT := transposeW M.names.length (M.rows.map (·.2))
-  -- melt: value columns stacked in column order, id columns repeated
-  let rows := ((M.names.zip colsT).map (fun p =>
-      (keys.zip p.2).map (fun q => (q.1.1, q.1.2, p.1, q.2)))).flatten
+  let rows := (melt M.names M.rows).map (fun e => (e.1.1.1, e.1.1.2, e.1.2, e.2))
   pure ⟨instArg.getD "index", timeArg.getD "time_index", dimArg.getD "column", rows⟩
-
-def insertBy' {β} (le : β → β → Bool) (a : β) : List β → List β
-  | [] => [a]
-  | b :: l => if le a b then a :: b :: l else b :: insertBy' le a l
-
-def isortBy' {β} (le : β → β → Bool) : List β → List β
-  | [] => []
-  | a :: l => insertBy' le a (isortBy' le l)
 
 def keyLe (a b : Int × Int) : Bool := decide (a.1 < b.1) || (decide (a.1 = b.1) && decide (a.2 ≤ b.2))
 
 /-- sorted distinct values -/
-def sortDistinct {β} [BEq β] (le : β → β → Bool) (l : List β) : List β := isortBy' le l.eraseDups
+def sortDistinct {β} [BEq β] (le : β → β → Bool) (l : List β) : List β := isortBy le l.eraseDups
 
-/-- `X_long.pivot(index=[inst, time], columns=dim, values="value")`: sorted distinct keys ×
-sorted distinct variables, each cell looked up; duplicate entries are rejected by pandas,
-a missing entry would be NaN (outside the modelled domain). -/
-def pivot {ν α} [DecidableEq ν] (lt : ν → ν → Bool) (rows : List (Int × Int × ν × α)) :
-    Except Err (List ν × List ((Int × Int) × List α)) := do
-  let ents := rows.map (fun r => (((r.1, r.2.1), r.2.2.1), r.2.2.2))
+/-- one cell of the pivot table: the entry for `(key, variable)`; a missing entry would be NaN
+(outside the modelled domain) -/
+def cellOf {κ ν α : Type} [DecidableEq κ] [DecidableEq ν] (ents : List ((κ × ν) × α)) (k : κ) (d : ν) :
+    Except Err α :=
+  match ents.lookup (k, d) with
+  | some v => pure v
+  | none => throw Err.unmodelled
+
+/-- one row of the pivot table -/
+def pivotRow {κ ν α : Type} [DecidableEq κ] [DecidableEq ν] (ents : List ((κ × ν) × α)) (dims : List ν)
+    (k : κ) : Except Err (κ × List α) := do
+  let vals ← dims.mapM (cellOf ents k)
+  pure (k, vals)
+
+/-- `X_long.pivot(index=[inst, time], columns=dim, values="value")` on the entries
+`((key, variable), value)`: sorted distinct keys × sorted distinct variables, each cell looked
+up; duplicate entries are rejected by pandas. -/
+def pivotE {κ ν α : Type} [DecidableEq κ] [DecidableEq ν] (kle : κ → κ → Bool) (lt : ν → ν → Bool)
+    (ents : List ((κ × ν) × α)) : Except Err (List ν × List (κ × List α)) := do
   if ¬ (ents.map (·.1)).Nodup then throw Err.value
-  let keys := sortDistinct keyLe (ents.map (·.1.1))
+  let keys := sortDistinct kle (ents.map (·.1.1))
   let dims := sortDistinct (fun a b => !lt b a) (ents.map (·.1.2))
-  let table ← keys.mapM (fun k => do
-    let vals ← dims.mapM (fun d => match ents.lookup (k, d) with
-      | some v => pure v
-      | none => throw Err.unmodelled)
-    pure (k, vals))
+  let table ← keys.mapM (pivotRow ents dims)
   pure (dims, table)
+
+def pivot {ν α} [DecidableEq ν] (lt : ν → ν → Bool) (rows : List (Int × Int × ν × α)) :
+    Except Err (List ν × List ((Int × Int) × List α)) :=
+  pivotE keyLe lt (rows.map (fun r => (((r.1, r.2.1), r.2.2.1), r.2.2.2)))
 
 /-- `from_long_to_nested(X_long, instance_column_name, time_column_name, dimension_column_name,
 value_column_name="value", column_names)` -/
